@@ -36,6 +36,11 @@ type vSOutbox struct {
 }
 
 func vS_collect(up, down *actor.PID, subID string) *vSOutbox {
+	return vS_collect2(up, subID, down, subID)
+}
+
+// upSub: the subscription id the actor uses towards its upstream; subID: towards `down`
+func vS_collect2(up *actor.PID, upSub string, down *actor.PID, subID string) *vSOutbox {
 	o := &vSOutbox{}
 	for i := 0; i < len(actor.VOut) && i < vSMaxOut+4; i++ {
 		s := actor.VOut[i]
@@ -76,7 +81,7 @@ func vS_collect(up, down *actor.PID, subID string) *vSOutbox {
 				if m.n <= 0 {
 					o.reqBad = true
 				}
-				if m.subID != subID {
+				if m.subID != upSub {
 					o.badSub = true
 				}
 			} else {
